@@ -426,6 +426,8 @@ def execute_one(plan):
             want = t["end"]
             if failed is not None:
                 txn.error = failed
+                # did the call fail while a fault was still in effect?
+                txn.error_during_fault = world.now() <= world.last_fault_effect + 1e-9
                 want = "abort"
                 world.probe("app_aborts_after_error")
                 if failed == "hang":
@@ -966,6 +968,15 @@ def oracle_liveness_c07(plan, world, obs, state):
                 # request_timeout_ms while a fault held the partition's batches up; the
                 # application aborted, and that abort succeeded
                 world.probe("send_backpressure_timeout")
+                continue
+            if getattr(txn, "error_during_fault", False) and type(txn.error).__name__ in (
+                    "UnknownTopicOrPartitionError", "KafkaConnectionError", "NodeNotReadyError",
+                    "RequestTimedOutError"):
+                # send() gave up waiting for the topic's metadata (documented, after
+                # request_timeout_ms) while the brokers were still unreachable: the property
+                # speaks about how the transaction ends "once the faults cease", and the abort
+                # the application then asked for succeeded
+                world.probe("send_failed_while_cluster_unreachable")
                 continue
             world.violation("C07", "transactional_call_failed_on_retriable_faults", data)
         elif txn.outcome == "open" and txn.producer not in state["killed"]:
